@@ -5,8 +5,6 @@
   of them to the reference, on the domain it covers.
 -/
 import FluteModel.Admission
-import FluteModel.FdtAbs
-import FluteModel.Session
 import FluteModel.Toi
 namespace Flute.Props.C01.Admission
 open Flute Flute.Admission
@@ -30,160 +28,95 @@ def relRs {α β : Type} (R : α → β → Prop) : Rs α → Rs β → Prop
   | .error _, .error _ => True
   | _, _ => False
 
-/-! ## 1. `FdtAbs` (agent fdtabs): `maxTransferLength`, `rsRefused`, `effectiveOti`, `setZ`, `add` -/
-
-def toFScheme : SchemeSpecific → FdtAbs.Scheme
-  | .reedSolomon m g => .rs2m m g
-  | .raptorq z n al => .raptorq z n al
-  | .raptor z n al => .raptor z n al
-
-/-- the same OTI in `FdtAbs`' representation (encoding id as a number) -/
-def toF (o : Oti) : FdtAbs.Oti :=
-  { enc := o.fec.id, inst := o.inst, maxSbl := o.maxSbl, esl := o.esl, parity := o.parity,
-    scheme := o.scheme.map toFScheme }
-
-private theorem relRs_refl {α : Type} (x : Rs α) : relRs (fun a b => a = b) x x := by
-  cases x <;> simp [relRs]
-
-theorem maxTransferLength_link (o : Oti) :
-    relRs (fun a b => a = b) (maxTransferLength o) (FdtAbs.maxTransferLength (toF o)) := by
-  unfold maxTransferLength FdtAbs.maxTransferLength toF
-  cases hf : o.fec <;>
-    simp only [Fec.id, maxSourceBlocksNumber, lengthCap, Nat.reduceEqDiff, ↓reduceIte, reduceCtorEq,
-      gt_iff_lt] <;>
-    first
-    | exact relRs_refl _
-    | trivial
 
 /-- forget the panic message -/
 def toOpt {α : Type} : Rs α → Option α
   | .ok a => some a
   | .error _ => none
 
-/-- `FileDesc::new`'s answer in `FdtAbs.effectiveOti`'s encoding: `none` = `Err` -/
-def outF : Except Refuse Oti → Option FdtAbs.Oti
-  | .error _ => none
-  | .ok o => some (toF o)
-
-theorem setZ_link (o : Oti) (nb : Nat) : toF (setZ o nb) = FdtAbs.setZ (toF o) (max nb 1) := by
-  obtain ⟨fec, inst, maxSbl, esl, parity, scheme⟩ := o
-  cases fec <;> cases scheme with
-  | none => simp [setZ, FdtAbs.setZ, toF, Fec.id]
-  | some sc => cases sc <;> simp [setZ, FdtAbs.setZ, toF, Fec.id, toFScheme]
-
-/-- everything of `FileDesc::new` after the transfer-length check, in both models -/
-def tailA (oti : Oti) (L : Nat) : Rs (Except Refuse Oti) :=
-  if (oti.fec = Fec.rs28 ∨ oti.fec = Fec.rs28us) ∧ oti.parity = 0 then Except.ok (Except.error Refuse.rsNoParity)
-  else
-    match
-      (if oti.fec = Fec.rs28 ∨ oti.fec = Fec.rs28us then
-        match Partition.blockPartitioning oti.maxSbl L oti.esl with
-        | Except.error w => Except.error w
-        | Except.ok q => Except.ok (if q.fst + oti.parity > 256 then some Refuse.rsBlockOver256 else none)
-      else Except.ok none : Rs (Option Refuse)) with
-    | Except.error w => Except.error w
-    | Except.ok (some r) => Except.ok (Except.error r)
-    | Except.ok none =>
-      if oti.fec = Fec.raptorq ∨ oti.fec = Fec.raptor then
-        match Partition.blockPartitioning oti.maxSbl L oti.esl with
-        | Except.error w => Except.error w
-        | Except.ok q =>
-          if q.fst > maxBlockSymbols oti.fec then Except.ok (Except.error Refuse.blockOverKmax)
-          else
-            if oti.scheme.isNone = true then Except.ok (Except.error Refuse.noSchemeSpecific)
-            else
-              if q.snd.snd.snd > (if oti.fec = Fec.raptorq then 255 else 65535) then
-                Except.ok (Except.error Refuse.tooManyBlocks)
-              else Except.ok (Except.ok (setZ oti q.snd.snd.snd))
-      else Except.ok (Except.ok oti)
-
-def tailF (o : FdtAbs.Oti) (L : Nat) : Rs (Option FdtAbs.Oti) :=
-  match FdtAbs.rsRefused o L with
-  | Except.error w => Except.error w
-  | Except.ok true => Except.ok none
-  | Except.ok false =>
-    if o.enc = 6 ∨ o.enc = 1 then
-      match Partition.blockPartitioning o.maxSbl L o.esl with
-      | Except.error w => Except.error w
-      | Except.ok q =>
-        if q.fst > FdtAbs.kMax o.enc then Except.ok none
-        else
-          if o.scheme.isNone = true then Except.ok none
-          else
-            if o.enc = 6 ∧ q.snd.snd.snd > 255 ∨ o.enc = 1 ∧ q.snd.snd.snd > 65535 then
-              Except.ok none
-            else Except.ok (some (FdtAbs.setZ o (max q.snd.snd.snd 1)))
-    else Except.ok (some o)
-
-private theorem setZ_link_raptor (inst maxSbl esl parity : Nat) (scheme : Option SchemeSpecific) (nb : Nat) :
-    FdtAbs.setZ { enc := 1, inst := inst, maxSbl := maxSbl, esl := esl, parity := parity,
-                  scheme := Option.map toFScheme scheme } (max nb 1) =
-      toF (setZ ⟨.raptor, inst, maxSbl, esl, parity, scheme⟩ nb) :=
-  (setZ_link ⟨.raptor, inst, maxSbl, esl, parity, scheme⟩ nb).symm
-
-private theorem setZ_link_raptorq (inst maxSbl esl parity : Nat) (scheme : Option SchemeSpecific) (nb : Nat) :
-    FdtAbs.setZ { enc := 6, inst := inst, maxSbl := maxSbl, esl := esl, parity := parity,
-                  scheme := Option.map toFScheme scheme } (max nb 1) =
-      toF (setZ ⟨.raptorq, inst, maxSbl, esl, parity, scheme⟩ nb) :=
-  (setZ_link ⟨.raptorq, inst, maxSbl, esl, parity, scheme⟩ nb).symm
-
-private theorem tail_link (oti : Oti) (L : Nat) : toOpt (tailF (toF oti) L) = (toOpt (tailA oti L)).map outF := by
-  obtain ⟨fec, inst, maxSbl, esl, parity, scheme⟩ := oti
-  cases fec <;>
-    simp only [tailA, tailF, FdtAbs.rsRefused, toF, Fec.id, FdtAbs.kMax, maxBlockSymbols, reduceCtorEq, or_self,
-      false_or, or_false, or_true, false_and, true_and, ↓reduceIte, Nat.reduceEqDiff]
-  all_goals
-    cases Partition.blockPartitioning maxSbl L esl with
-    | error w =>
-      (try simp only [apply_ite toOpt, apply_ite (Option.map outF)])
-      (repeat' split) <;> simp_all [toOpt, outF, toF, Fec.id]
-    | ok q =>
-      (try simp only [setZ_link_raptor, setZ_link_raptorq])
-      (try simp only [apply_ite toOpt, apply_ite (Option.map outF)])
-      (repeat' split) <;> simp_all [toOpt, outF, toF, Fec.id] <;> omega
+/-- everything of `FileDesc::new` after the transfer-length check -/
+abbrev tailA := @fileDescTail
 
 /-- the OTI `FileDesc::new` works with -/
 def chosen (dflt : Oti) (ovr : Option Oti) : Oti := match ovr with | some o => o | none => dflt
 
-private theorem fileDescNew_eq (dflt : Oti) (ovr : Option Oti) (L : Nat) :
+theorem _root_.Flute.Admission.fileDescNew_eq (dflt : Oti) (ovr : Option Oti) (L : Nat) :
     fileDescNew dflt ovr L =
-      (match maxTransferLength (chosen dflt ovr) with
+      (if (chosen dflt ovr).fec = .rs2m then .ok (.error .notImplemented) else
+       match maxTransferLength (chosen dflt ovr) with
        | .error w => .error w
-       | .ok mtl => if L > mtl then .ok (.error .tooLong) else tailA (chosen dflt ovr) L) := by
+       | .ok mtl => if L > mtl then .ok (.error .tooLong) else fileDescTail (chosen dflt ovr) L) := by
   cases ovr <;> rfl
 
-/-- **`FdtAbs.effectiveOti` = `Admission.fileDescNew`** for every default OTI, override, transfer length:
-    same panics (message forgotten), `Err` where the reference refuses (whatever the reason), and the
-    same effective OTI (Z included) where it accepts. -/
-theorem effectiveOti_link (dflt : Oti) (ovr : Option Oti) (a : FdtAbs.ObjAttrs) (ha : a.oti = ovr.map toF) :
-    toOpt (FdtAbs.effectiveOti (toF dflt) a) =
-      (toOpt (fileDescNew dflt ovr a.transferLength)).map outF := by
-  have hget : a.oti.getD (toF dflt) = toF (chosen dflt ovr) := by
-    rw [ha]; cases ovr <;> rfl
-  have hm := maxTransferLength_link (chosen dflt ovr)
-  rw [fileDescNew_eq]
-  unfold FdtAbs.effectiveOti
-  simp only [hget]
-  generalize chosen dflt ovr = oti at *
-  cases h1 : maxTransferLength oti with
-  | error w =>
-    rw [h1] at hm
-    cases h2 : FdtAbs.maxTransferLength (toF oti) with
-    | error w2 => simp [toOpt]
-    | ok v => rw [h2] at hm; simp [relRs] at hm
-  | ok mtl =>
-    rw [h1] at hm
-    cases h2 : FdtAbs.maxTransferLength (toF oti) with
-    | error w2 => rw [h2] at hm; simp [relRs] at hm
-    | ok v =>
-      rw [h2] at hm
-      simp only [relRs] at hm
-      subst hm
-      simp only []
-      by_cases hL : a.transferLength > mtl
-      · simp [hL, toOpt, outF]
-      · simp only [hL, ↓reduceIte]
-        exact tail_link oti a.transferLength
+/-! ### shape of the tail of `FileDesc::new` -/
+
+theorem rsChecks_some (oti : Oti) (L : Nat) (r : Refuse) (h : rsChecks oti L = .ok (some r)) :
+    r = .rsFtiFields ∨ r = .rsBlockOver255 := by
+  unfold rsChecks at h
+  (repeat' split at h) <;> simp_all
+
+theorem rsChecks_none (oti : Oti) (L : Nat) (h : rsChecks oti L = .ok none)
+    (hf : oti.fec = .rs28 ∨ oti.fec = .rs28us) :
+    (oti.fec = .rs28 → oti.maxSbl + oti.parity ≤ 255) ∧
+    (oti.fec = .rs28us → oti.maxSbl + oti.parity ≤ 65535) ∧
+    ∃ q, Partition.blockPartitioning oti.maxSbl L oti.esl = .ok q ∧ q.1 + oti.parity ≤ 255 := by
+  unfold rsChecks at h
+  simp only [hf, ↓reduceIte] at h
+  split at h
+  · cases h
+  · rename_i hfield
+    split at h
+    · cases h
+    · rename_i hfield2
+      split at h
+      · cases h
+      · rename_i q hq
+        refine ⟨fun hf5 => ?_, fun hf129 => ?_, q, hq, ?_⟩
+        · simp only [hf5, true_and] at hfield; omega
+        · simp only [hf129, true_and] at hfield2; omega
+        · split at h
+          · cases h
+          · omega
+
+/-- the Raptor / RaptorQ part of the tail, once the Reed-Solomon checks have passed -/
+def raptorTail (oti : Oti) (L : Nat) : Rs (Except Refuse Oti) :=
+  if oti.fec = .raptorq ∨ oti.fec = .raptor then
+    match Partition.blockPartitioning oti.maxSbl L oti.esl with
+    | .error w => .error w
+    | .ok q =>
+      if q.1 > maxBlockSymbols oti.fec then .ok (.error .blockOverKmax) else
+      if oti.scheme.isNone then .ok (.error .noSchemeSpecific) else
+      if q.2.2.2 > (if oti.fec = .raptorq then 255 else 65535) then .ok (.error .tooManyBlocks) else
+      .ok (.ok (setZ oti q.2.2.2))
+  else .ok (.ok oti)
+
+theorem fileDescTail_eq (oti : Oti) (L : Nat) :
+    fileDescTail oti L =
+      (if (oti.fec = .rs28 ∨ oti.fec = .rs28us) ∧ oti.parity = 0 then .ok (.error .rsNoParity) else
+       match rsChecks oti L with
+       | .error w => .error w
+       | .ok (some r) => .ok (.error r)
+       | .ok none => raptorTail oti L) := rfl
+
+/-- every way the tail can refuse -/
+theorem tail_refusals (oti : Oti) (L : Nat) (r : Refuse) (h : fileDescTail oti L = .ok (.error r)) :
+    r = .rsNoParity ∨ r = .rsFtiFields ∨ r = .rsBlockOver255 ∨
+    (rsChecks oti L = .ok none ∧ raptorTail oti L = .ok (.error r) ∧
+      (r = .blockOverKmax ∨ r = .noSchemeSpecific ∨ r = .tooManyBlocks)) := by
+  rw [fileDescTail_eq] at h
+  split at h
+  · injection h with h; injection h with h; exact .inl h.symm
+  · split at h
+    · cases h
+    · rename_i r' hr'
+      injection h with h; injection h with h; subst h
+      rcases rsChecks_some oti L _ hr' with h | h
+      · exact .inr (.inl h)
+      · exact .inr (.inr (.inl h))
+    · rename_i hnone
+      refine .inr (.inr (.inr ⟨hnone, h, ?_⟩))
+      unfold raptorTail at h
+      (repeat' split at h) <;> simp_all
 
 /-! ### the `u8` / `u16` conversion of Z can never fail -/
 
@@ -204,6 +137,9 @@ private theorem bp_nb (b l e : Nat) (q : Partition.Quad) (h : Partition.blockPar
     · cases h
     · injection h with h; subst h; exact .inr ⟨by omega, by omega, rfl⟩
 
+private theorem satMul64_le (a b : Nat) : satMul64 a b ≤ a * b := by
+  unfold satMul64; split <;> omega
+
 private theorem mtl_bound (o : Oti) (mtl : Nat) (h : maxTransferLength o = .ok mtl) :
     ∃ k, maxSourceBlocksNumber o.fec = .ok k ∧ mtl ≤ o.esl * o.maxSbl * k := by
   unfold maxTransferLength at h
@@ -211,21 +147,11 @@ private theorem mtl_bound (o : Oti) (mtl : Nat) (h : maxTransferLength o = .ok m
   | error w => simp [hk] at h
   | ok k =>
     refine ⟨k, rfl, ?_⟩
-    simp only [hk, u64mul] at h
-    split at h
-    · cases h
-    · rename_i bs hbs
-      split at hbs
-      · injection hbs with hbs; subst hbs
-        split at h
-        · cases h
-        · rename_i sz hsz
-          split at hsz
-          · injection hsz with hsz; subst hsz
-            injection h with h; subst h
-            split <;> omega
-          · cases hsz
-      · cases hbs
+    simp only [hk, Except.ok.injEq] at h
+    have h1 := satMul64_le (satMul64 o.esl o.maxSbl) k
+    have h2 := Nat.mul_le_mul_right k (satMul64_le o.esl o.maxSbl)
+    subst h
+    split <;> omega
 
 /-- **Z always fits**: after the transfer-length check the number of source blocks is at most 255
     (RaptorQ) / 65535 (Raptor), so the `try_into()` of `FileDesc::new` never fails and the refusal
@@ -235,6 +161,9 @@ theorem tooManyBlocks_unreachable (dflt : Oti) (ovr : Option Oti) (L : Nat) :
   rw [fileDescNew_eq]
   generalize chosen dflt ovr = oti
   intro h
+  by_cases h2m : oti.fec = .rs2m
+  · simp [h2m] at h
+  simp only [h2m, ↓reduceIte] at h
   cases h1 : maxTransferLength oti with
   | error w => simp [h1] at h
   | ok mtl =>
@@ -251,186 +180,49 @@ theorem tooManyBlocks_unreachable (dflt : Oti) (ovr : Option Oti) (L : Nat) :
           rw [← Nat.mul_assoc]; omega)
         have := divCeil_le_of_le_mul _ oti.maxSbl _ hbp ht
         omega
-    obtain ⟨fec, inst, maxSbl, esl, parity, scheme⟩ := oti
-    cases fec <;>
-      simp only [tailA, reduceCtorEq, or_self, or_false, or_true, false_and, true_and, ↓reduceIte,
-        maxBlockSymbols, maxSourceBlocksNumber, Except.ok.injEq] at h hk hnbk
-    all_goals (try (subst hk))
-    all_goals
-      cases hq : Partition.blockPartitioning maxSbl L esl with
-      | error w => simp [hq] at h <;> (repeat' split at h) <;> simp_all
-      | ok q =>
-        have hbq := hnbk q hq
-        simp only [hq] at h
-        (repeat' split at h) <;> (try simp_all) <;> (try cases h) <;> (try omega)
+    rcases tail_refusals oti L _ h with h' | h' | h' | ⟨_, hrt, _⟩
+    · cases h'
+    · cases h'
+    · cases h'
+    · unfold raptorTail at hrt
+      split at hrt
+      · rename_i hfec
+        split at hrt
+        · cases hrt
+        · rename_i q hq
+          have hbq := hnbk q hq
+          by_cases hfq : oti.fec = .raptorq
+          · have hk' : k = 255 := by simp [hfq, maxSourceBlocksNumber] at hk; omega
+            simp only [hfq, ↓reduceIte] at hrt
+            (repeat' split at hrt) <;> (try simp at hrt) <;> omega
+          · have hfr : oti.fec = .raptor := by rcases hfec with hf | hf; exact absurd hf hfq; exact hf
+            have hk' : k = 65535 := by simp [hfr, maxSourceBlocksNumber] at hk; omega
+            simp only [hfr, reduceCtorEq, ↓reduceIte] at hrt
+            (repeat' split at hrt) <;> (try simp at hrt) <;> omega
+      · cases hrt
 
 /-- every refusal of `FileDesc::new` comes after the TOI allocation of `Fdt::add_object` -/
 theorem fileDescNew_refusal_late (dflt : Oti) (ovr : Option Oti) (L : Nat) (r : Refuse)
     (h : fileDescNew dflt ovr L = .ok (.error r)) : r.afterAllocation = true := by
   rw [fileDescNew_eq] at h
   generalize chosen dflt ovr = oti at h
-  cases r <;> first
-  | rfl
-  | (exfalso
-     cases h1 : maxTransferLength oti with
-     | error w => simp [h1] at h
-     | ok mtl =>
-       simp only [h1] at h
-       by_cases hL : L > mtl
-       · simp [hL] at h
-       simp only [hL, ↓reduceIte] at h
-       obtain ⟨fec, inst, maxSbl, esl, parity, scheme⟩ := oti
-       cases fec <;>
-         simp only [tailA, reduceCtorEq, or_self, or_false, or_true, false_and, true_and, ↓reduceIte,
-           maxBlockSymbols] at h
-       all_goals
-         cases hq : Partition.blockPartitioning maxSbl L esl with
-         | error w => simp [hq] at h <;> (repeat' split at h) <;> simp_all
-         | ok q =>
-           (try simp only [hq] at h)
-           (repeat' split at h) <;> (try simp_all) <;> (try cases h))
-
-/-! ### `FdtAbs.add` = `Admission.accepts` (for a configured queue, an object without TOI handle) -/
-
-/-- the object `FdtAbs` describes, in the reference's terms (`cp` = the code points of a string token) -/
-def objOf (cp : String → List Nat) (a : FdtAbs.ObjAttrs) (ovr : Option Oti) : Obj :=
-  { transferLength := a.transferLength, oti := ovr, location := cp a.location, contentType := cp a.contentType,
-    md5 := a.md5.map cp, etag := a.etag.map cp, groups := a.groups.map (fun gs => gs.map cp), toi := .none }
-
-theorem attrsXmlOk_link (ok : String → Bool) (cp : String → List Nat) (hx : ∀ str, ok str = isXmlStr (cp str))
-    (a : FdtAbs.ObjAttrs) (ovr : Option Oti) : FdtAbs.attrsXmlOk ok a = metaOk (objOf cp a ovr) := by
-  have hok : ok = fun x => isXmlStr (cp x) := funext hx
-  unfold FdtAbs.attrsXmlOk metaOk objOf
-  cases a.md5 <;> cases a.etag <;> cases a.groups <;>
-    simp [hok, Option.all, List.all_map, Function.comp_def]
-
-/-- **`FdtAbs.add` agrees with the reference** on its domain (existing priority queue, object without TOI
-    handle; `xmlOk` = `is_xml_str` on the token's code points): it panics iff the reference panics, answers
-    `err` iff the reference refuses - and then lists nothing new -, and where the reference accepts the new
-    file carries the reference's OTI.  It takes a TOI exactly when the reference says one is consumed. -/
-theorem fdtabs_add_link (s : FdtAbs.State) (a : FdtAbs.ObjAttrs) (cp : String → List Nat)
-    (hx : ∀ str, s.cfg.xmlOk str = isXmlStr (cp str))
-    (dflt : Oti) (hd : s.cfg.oti = toF dflt) (ovr : Option Oti) (ha : a.oti = ovr.map toF)
-    (prio : Nat) (queues : List Nat) (hq : prio ∈ queues) :
-    let cfg : Cfg := { queues := queues, complete := decide (s.complete = some true), oti := dflt }
-    let obj := objOf cp a ovr
-    (match accepts cfg prio obj with
-     | .error _ => (FdtAbs.add s a).2 = .panic
-     | .ok (.error _) => (FdtAbs.add s a).2 = .err ∧ (FdtAbs.add s a).1.files = s.files
-     | .ok (.ok adm) => (FdtAbs.add s a).2 = .ok s.nextToi ∧
-         (FdtAbs.add s a).1.files = s.files ++ [(⟨s.nextToi, a, toF adm.oti, false, 0⟩ : FdtAbs.FileDesc)]) ∧
-    ((FdtAbs.add s a).1.nextToi ≠ s.nextToi → consumesToi cfg prio obj = true) ∧
-    (consumesToi cfg prio obj = false → (FdtAbs.add s a).1.nextToi = s.nextToi) := by
-  intro cfg obj
-  have hxml := attrsXmlOk_link s.cfg.xmlOk cp hx a ovr
-  have hlink := effectiveOti_link dflt ovr a ha
-  rw [← hd] at hlink
-  unfold FdtAbs.add consumesToi accepts
-  simp only [cfg, hq, not_true_eq_false, ↓reduceIte, decide_eq_true_eq]
-  by_cases hc : s.complete = some true
-  · simp [hc]
-  by_cases hm : metaOk obj = false
-  · have : FdtAbs.attrsXmlOk s.cfg.xmlOk a = false := by rw [hxml]; exact hm
-    simp [hc, hm, this, Refuse.afterAllocation]
-  have hm' : FdtAbs.attrsXmlOk s.cfg.xmlOk a = true := by
-    rw [hxml]; cases h : metaOk obj <;> simp_all
-  have hobj : obj.toi = .none := rfl
-  have hobj2 : obj.oti = ovr := rfl
-  have hobj3 : obj.transferLength = a.transferLength := rfl
-  simp only [hc, hm, hm', hobj, hobj2, hobj3, reduceCtorEq, or_self, ↓reduceIte, Bool.true_eq_false, decide_true,
-    Bool.true_and]
-  cases h1 : fileDescNew dflt ovr a.transferLength with
-  | error w =>
-    rw [h1] at hlink
-    cases h2 : FdtAbs.effectiveOti s.cfg.oti a with
-    | error w2 => simp
-    | ok v => rw [h2] at hlink; simp [toOpt] at hlink
-  | ok r =>
-    rw [h1] at hlink
-    cases h2 : FdtAbs.effectiveOti s.cfg.oti a with
-    | error w2 => rw [h2] at hlink; simp [toOpt] at hlink
-    | ok v =>
-      rw [h2] at hlink
-      simp only [toOpt, Option.map_some, Option.some.injEq] at hlink
-      subst hlink
-      cases r with
-      | error why =>
-        have hlate := fileDescNew_refusal_late dflt ovr a.transferLength why h1
-        simp [outF, hlate]
-      | ok o => simp [outF]
-
-/-- **refused ⇒ never listed** (C01 "refused when it is added, never transmitted corrupted", FDT half): if
-    the reference refuses the object, `FdtAbs.add` leaves `files` untouched; by `Props.C10.fdt_lists_exactly`
-    (every instance lists exactly the tracked added-not-removed-not-finished objects) and
-    `publication_lists_exactly` no FDT instance ever mentions it. -/
-theorem refused_never_listed (s : FdtAbs.State) (a : FdtAbs.ObjAttrs) (h : (FdtAbs.add s a).2 = .err) :
-    (FdtAbs.add s a).1.files = s.files := by
-  unfold FdtAbs.add at h ⊢
-  split
-  · rfl
-  · rename_i hne
-    simp only [hne, ↓reduceIte] at h
-    split <;> simp_all
-
-/-! ## 2. `Session.refused` (agent e2e): coarser by design - no panics, no refusal reasons, no Z -/
-
-def fecOf : Session.Scheme → Fec
-  | .nocode => .noCode | .rs => .rs28 | .rsus => .rs28us | .raptorq => .raptorq | .raptor => .raptor
-
-/-- **`Session.refused` ⇔ the reference refuses**, on the domain of e2e's model: one of its five schemes, no
-    `usize` overflow in `max_transfer_length` (`hm`: the two `usize` products of `max_transfer_length` do not overflow, then both
-    models compute min(cap, E*B*max_sbn); where they overflow the real code panics - `PANIC` in the correspondence -
-    and e2e's model, on unbounded naturals, has no such outcome),
-    scheme-specific parameters present for Raptor / RaptorQ, `aLarge` = the partition's `a_large`. -/
-theorem session_refused_link (sch : Session.Scheme) (e b p tl : Nat) (sc : Option SchemeSpecific)
-    (q : Partition.Quad) (hbp : Partition.blockPartitioning b tl e = .ok q)
-    (hm : maxTransferLength ⟨fecOf sch, 0, b, e, p, sc⟩ = .ok (Session.maxTransferLength sch e b))
-    (hsc : (sch = .raptorq ∨ sch = .raptor) → sc.isSome = true) :
-    ∃ r, fileDescNew ⟨fecOf sch, 0, b, e, p, sc⟩ none tl = .ok r ∧
-      (Session.refused sch e b p tl q.1 = true ↔ ∃ why, r = .error why) := by
-  have hu := tooManyBlocks_unreachable ⟨fecOf sch, 0, b, e, p, sc⟩ none tl
-  rw [fileDescNew_eq] at hu ⊢
-  simp only [chosen, hm] at hu ⊢
-  by_cases hL : tl > Session.maxTransferLength sch e b
-  · simp only [hL, ↓reduceIte]
-    exact ⟨_, rfl, by simp [Session.refused, hL]⟩
-  simp only [hL, ↓reduceIte] at hu ⊢
-  cases sch <;>
-    simp only [tailA, fecOf, reduceCtorEq, or_self, or_false, or_true, false_or, false_and, true_and, ↓reduceIte, hbp,
-      maxBlockSymbols, Session.refused, Session.kMax, hL, decide_false, Bool.false_or, Bool.or_false, beq_self_eq_true,
-      Bool.true_and, Bool.false_and, Bool.and_false, Bool.or_self] at hu hsc ⊢
-  · exact ⟨_, rfl, by simp⟩
-  · by_cases hp : p = 0
-    · simp only [hp, ↓reduceIte]; exact ⟨_, rfl, by simp⟩
-    · by_cases hk : q.1 + p > 256
-      · simp only [hp, hk, ↓reduceIte]; exact ⟨_, rfl, by simp [hp, hk]⟩
-      · simp only [hp, hk, ↓reduceIte]; exact ⟨_, rfl, by simp [hp, hk]⟩
-  · by_cases hp : p = 0
-    · simp only [hp, ↓reduceIte]; exact ⟨_, rfl, by simp⟩
-    · by_cases hk : q.1 + p > 256
-      · simp only [hp, hk, ↓reduceIte]; exact ⟨_, rfl, by simp [hp, hk]⟩
-      · simp only [hp, hk, ↓reduceIte]; exact ⟨_, rfl, by simp [hp, hk]⟩
-  · have hs : sc.isNone = false := by cases sc <;> simp_all
-    by_cases hk : q.1 > 56403
-    · simp only [hk, ↓reduceIte]; exact ⟨_, rfl, by simp [hk]⟩
-    · by_cases hz : q.2.2.2 > 255
-      · simp [hk, hs, hz] at hu
-      · simp only [hk, hs, hz, ↓reduceIte, Bool.false_eq_true]; exact ⟨_, rfl, by simp [hk]⟩
-  · have hs : sc.isNone = false := by cases sc <;> simp_all
-    by_cases hk : q.1 > 8192
-    · simp only [hk, ↓reduceIte]; exact ⟨_, rfl, by simp [hk]⟩
-    · by_cases hz : q.2.2.2 > 65535
-      · simp [hk, hs, hz] at hu
-      · simp only [hk, hs, hz, ↓reduceIte, Bool.false_eq_true]; exact ⟨_, rfl, by simp [hk]⟩
-
-/-- `hm` is met wherever nothing overflows, e.g. -/
-example : maxTransferLength ⟨fecOf .rs, 0, 64, 1024, 2, none⟩ = .ok (Session.maxTransferLength .rs 1024 64) := rfl
+  by_cases h2m : oti.fec = .rs2m
+  · simp only [h2m, ↓reduceIte, Except.ok.injEq, Except.error.injEq] at h; subst h; rfl
+  simp only [h2m, ↓reduceIte] at h
+  cases h1 : maxTransferLength oti with
+  | error w => simp [h1] at h
+  | ok mtl =>
+    simp only [h1] at h
+    by_cases hL : L > mtl
+    · simp only [hL, ↓reduceIte, Except.ok.injEq, Except.error.injEq] at h; subst h; rfl
+    simp only [hL, ↓reduceIte] at h
+    rcases tail_refusals oti L r h with h' | h' | h' | ⟨_, _, h' | h' | h'⟩ <;> subst h' <;> rfl
 
 /-! ## 3. block encoder proofs (agent benc): `Accepts` / `Link.noFail` follow from admission -/
 
 /-- An admitted Reed-Solomon object satisfies exactly the two hypotheses under which
     `BencShape.rs_accepts` / `Props.C08.accepts_discharged` prove `Accepts` (every block can be encoded):
-    at least one parity symbol, `a_large + parity ≤ 256`; an admitted Raptor / RaptorQ object has
+    at least one parity symbol, `a_large + parity ≤ 255` (and `B + parity ≤ 255` for FEC 5); an admitted Raptor / RaptorQ object has
     `a_large ≤ K_max`.  With `k ≤ a_large` for every block these give `Session.blockFails = false` (the
     `noFail` field of `BencSessionBridge.Link`) for RS and RaptorQ; for Raptor they do NOT exclude blocks of 2
     or 3 symbols, which the `raptor-code` crate cannot encode: admission is deliberately silent there. -/
@@ -438,11 +230,15 @@ theorem admitted_block_limits (dflt : Oti) (ovr : Option Oti) (L : Nat) (o : Oti
     (h : fileDescNew dflt ovr L = .ok (.ok o)) (q : Partition.Quad)
     (hq : Partition.blockPartitioning (chosen dflt ovr).maxSbl L (chosen dflt ovr).esl = .ok q) :
     (((chosen dflt ovr).fec = .rs28 ∨ (chosen dflt ovr).fec = .rs28us) →
-        1 ≤ (chosen dflt ovr).parity ∧ q.1 + (chosen dflt ovr).parity ≤ 256) ∧
+        1 ≤ (chosen dflt ovr).parity ∧ q.1 + (chosen dflt ovr).parity ≤ 255 ∧
+        ((chosen dflt ovr).fec = .rs28 → (chosen dflt ovr).maxSbl + (chosen dflt ovr).parity ≤ 255)) ∧
     (((chosen dflt ovr).fec = .raptorq ∨ (chosen dflt ovr).fec = .raptor) →
         q.1 ≤ maxBlockSymbols (chosen dflt ovr).fec ∧ (chosen dflt ovr).scheme.isSome = true) := by
   rw [fileDescNew_eq] at h
   generalize chosen dflt ovr = oti at h hq ⊢
+  by_cases h2m : oti.fec = .rs2m
+  · simp [h2m] at h
+  simp only [h2m, ↓reduceIte] at h
   cases h1 : maxTransferLength oti with
   | error w => simp [h1] at h
   | ok mtl =>
@@ -450,20 +246,40 @@ theorem admitted_block_limits (dflt : Oti) (ovr : Option Oti) (L : Nat) (o : Oti
     by_cases hL : L > mtl
     · simp [hL] at h
     simp only [hL, ↓reduceIte] at h
-    obtain ⟨fec, inst, maxSbl, esl, parity, scheme⟩ := oti
-    simp only at hq
-    cases fec <;>
-      simp only [tailA, reduceCtorEq, or_self, or_false, or_true, false_and, true_and, ↓reduceIte,
-        maxBlockSymbols, hq, false_imp_iff, true_imp_iff, and_true, true_and] at h ⊢
-    all_goals (repeat' split at h) <;> (try simp_all) <;> (try omega)
-    all_goals (cases scheme <;> simp_all)
+    rw [fileDescTail_eq] at h
+    split at h
+    · simp at h
+    rename_i hpar
+    cases hrs : rsChecks oti L with
+    | error w => simp [hrs] at h
+    | ok orr =>
+      cases orr with
+      | some r => simp [hrs] at h
+      | none =>
+        simp only [hrs] at h
+        constructor
+        · intro hf
+          obtain ⟨hfield, _, q', hq', hsum⟩ := rsChecks_none oti L hrs hf
+          rw [hq] at hq'; injection hq' with hq'; subst hq'
+          have : oti.parity ≠ 0 := fun e => hpar ⟨hf, e⟩
+          exact ⟨by omega, hsum, hfield⟩
+        · intro hf
+          unfold raptorTail at h
+          simp only [hf, ↓reduceIte, hq] at h
+          (repeat' split at h) <;> (try simp at h)
+          all_goals exact ⟨by omega, by cases hsc : oti.scheme <;> simp_all⟩
 
-/-- consequence in e2e's vocabulary: no block of an admitted RS / RaptorQ / No-Code object "fails" -/
-theorem admitted_blocks_never_fail (sch : Session.Scheme) (p aLarge k : Nat) (hk1 : 1 ≤ k) (hk2 : k ≤ aLarge)
-    (hrs : (sch = .rs ∨ sch = .rsus) → 1 ≤ p ∧ aLarge + p ≤ 256)
-    (hrq : sch = .raptorq → aLarge ≤ 56403) (hnot : sch ≠ .raptor) :
-    Session.blockFails sch k p = false := by
-  cases sch <;> simp_all [Session.blockFails, Session.kMax] <;> omega
+/-- the statement before /repo d65a846 (bound 256, no field clause), kept for the proofs that use it
+    (`Props.C08`); it follows from `admitted_block_limits` -/
+theorem admitted_block_limits_256 (dflt : Oti) (ovr : Option Oti) (L : Nat) (o : Oti)
+    (h : fileDescNew dflt ovr L = .ok (.ok o)) (q : Partition.Quad)
+    (hq : Partition.blockPartitioning (chosen dflt ovr).maxSbl L (chosen dflt ovr).esl = .ok q) :
+    (((chosen dflt ovr).fec = .rs28 ∨ (chosen dflt ovr).fec = .rs28us) →
+        1 ≤ (chosen dflt ovr).parity ∧ q.1 + (chosen dflt ovr).parity ≤ 256) ∧
+    (((chosen dflt ovr).fec = .raptorq ∨ (chosen dflt ovr).fec = .raptor) →
+        q.1 ≤ maxBlockSymbols (chosen dflt ovr).fec ∧ (chosen dflt ovr).scheme.isSome = true) := by
+  obtain ⟨h1, h2⟩ := admitted_block_limits dflt ovr L o h q hq
+  exact ⟨fun hf => ⟨(h1 hf).1, by have := (h1 hf).2.1; omega⟩, h2⟩
 
 /-! ## 4. `Toi` (C15): which allocator operation an `add_object` call is -/
 
@@ -490,31 +306,5 @@ theorem toi_link (cfg : Cfg) (prio : Nat) (obj : Obj) (k h : Nat) (car : Bool) (
     refine ⟨by simp [toiOp, hr, ha], by simp [consumesToi, hr, ha], fun s => rfl⟩
   · intro ha ht
     exact ⟨by simp [toiOp, hr, ha, ht], by simp [consumesToi, hr, ha, ht]⟩
-
-/-- **C01, "refused when it is added, never transmitted corrupted" - one statement.**  If the reference
-    refuses (`accepts = Err`), then in the allocator model nothing stays live for the object
-    (`toi_link`: `addEarlyErr` changes nothing, `add k false` releases what it allocated - `Props.C15`
-    `reuse_only_after_release` / `invariant` hold over such histories), in the FDT model nothing is listed
-    (`fdtabs_add_link`: `files` unchanged, hence by `Props.C10.fdt_lists_exactly` /
-    `publication_lists_exactly` no instance mentions it), and the scheduler / block encoder models are
-    only ever given objects of `files` (`Props.C12.only_fdt_when_empty_ever`: no object packet without an
-    added object).  The refusal reasons are exactly these ten, `tooManyBlocks` being unreachable. -/
-theorem refused_object_leaves_no_trace (s : FdtAbs.State) (a : FdtAbs.ObjAttrs) (cp : String → List Nat)
-    (hx : ∀ str, s.cfg.xmlOk str = isXmlStr (cp str))
-    (dflt : Oti) (hd : s.cfg.oti = toF dflt) (ovr : Option Oti) (ha : a.oti = ovr.map toF)
-    (prio : Nat) (queues : List Nat) (hq : prio ∈ queues) (r : Refuse)
-    (hr : accepts { queues := queues, complete := decide (s.complete = some true), oti := dflt } prio
-            (objOf cp a ovr) = .ok (.error r)) :
-    (FdtAbs.add s a).2 = .err ∧ (FdtAbs.add s a).1.files = s.files ∧ r ≠ .tooManyBlocks := by
-  have h := (fdtabs_add_link s a cp hx dflt hd ovr ha prio queues hq).1
-  simp only [hr] at h
-  refine ⟨h.1, h.2, ?_⟩
-  intro e
-  subst e
-  unfold accepts at hr
-  simp only [hq, not_true_eq_false, ↓reduceIte] at hr
-  (repeat' split at hr) <;> (try cases hr)
-  rename_i h1
-  exact tooManyBlocks_unreachable _ _ _ h1
 
 end Flute.Props.C01.Admission
